@@ -83,4 +83,15 @@ AcceptAll(es, k, acc) ==
     ELSE AcceptAll(es, k + 1, Append(acc, es[k]))
 SortByPos(es) == SortSeq(es, LAMBDA a, b : a.pos < b.pos)
 FinalP(original, announced) == Splice(original, SortByPos(AcceptAll(announced, 1, <<>>)))
+\* The same statement without an order on the announcements (`scan --json` lists the findings rule by rule, in an
+\* order that is not the order of application): a selection S of the announced edits is an accepted one when its
+\* members are pairwise disjoint and every edit left out intersects a member that does not start after it.
+AcceptedSelection(es, S) ==
+    /\ \A i, j \in S : i # j => ~Intersects(es[i], es[j])
+    /\ \A k \in (1..Len(es)) \ S : \E j \in S : Intersects(es[k], es[j]) /\ es[j].pos <= es[k].pos
+\* number of edits of an accepted selection that produces `final`, or -1 when there is none
+AcceptedCount(original, es, final) ==
+    LET good == { S \in SUBSET (1..Len(es)) : AcceptedSelection(es, S) /\ final = Splice(original, SortByPos([k \in 1..Cardinality(S) |->
+                        es[CHOOSE j \in S : Cardinality({ i \in S : i < j }) = k - 1]])) } IN
+    IF good = {} THEN -1 ELSE Cardinality(CHOOSE S \in good : TRUE)
 =============================================================================
